@@ -22,8 +22,9 @@ CHECKS = {
                 technique='runtime monitoring: exception classifier + CPU-time watchdog round every parse/render of hostile, enumerated and stress inputs',
                 text='Every execution (input x renderer configuration x supply form) of the real code is wrapped by a monitor that admits only '
                      'the property\'s documented refusals and enforces the 10 s budget in CPU time (confirmed in a fresh process). Reach comes '
-                     'from ~150k (quick) / ~3M (thorough) executions over the spec corpus, mutations, random soups, generated documents, '
-                     '~100 pathological shapes up to 4 KB and ALL strings over two 24-symbol alphabets up to length 3/4.',
+                     'from ~220k (quick) / ~4.4M (thorough) executions over the spec corpus, mutations, random soups, generated documents, '
+                     '~100 pathological shapes up to 4 KB, deterministic families (odd white space in every structural position, format-template and URL '
+                     'payloads in every payload position) and ALL strings over two 24-symbol alphabets up to length 3/4.',
                 note='Held on the executions observed; nothing is claimed for inputs the workloads do not reach. Recursion errors are admitted '
                      'only when a conservative syntactic depth bound exceeds 100.'),
     'C06': dict(category='exploration', design_ref='DESIGN.md section 5, C06',
@@ -43,9 +44,9 @@ CHECKS = {
     'C04': dict(category='exploration', design_ref='DESIGN.md section 5, C04',
                 technique='relational monitor: canonical token trees of plain / quoted / list-indented parses of the same text compared',
                 text='Three executions of the real parser per case (plain, every line quoted, text indented under a list marker) are recorded and '
-                     'the wrapped tree must contain exactly the plain tree; ~30k (quick) / ~500k (thorough) embeddings over spec examples, '
+                     'the wrapped tree must contain exactly the plain tree; ~57k (quick) / ~1.7M (thorough) embeddings over spec examples, nesting up to 128 levels, '
                      'mutations, generated and random inputs, markers "> ", ">", + - * N. N) with 1-9 digits and padding 1-4.',
-                note='Two mechanisms are listed as known findings (setext heading inside a block quote; non-ASCII whitespace treated as a space) and '
+                note='One mechanism is listed as a known finding (non-ASCII whitespace treated as a space; setext headings inside block quotes were repaired) and '
                      'attributed only when the same law holds on the counterfactually neutralised witness. Held on what was observed.'),
     'C05': dict(category='exploration', design_ref='DESIGN.md section 5, C05',
                 technique='relational monitor: trees with line numbers of Document(A), Document(B) and Document(A+blank+B) compared',
@@ -96,10 +97,10 @@ CHECKS = {
                 technique='reference-model monitor: a seeded grammar generator writes tree, spelling and expected HTML independently; the real parser+renderer output is compared after the spec driver\'s normalisation',
                 text='Documents are generated from trees of all listed constructs (depth <= 4, ~40 blocks) with the spellings the spec leaves free; '
                      'a systematic sweep puts each leaf construct under every container path of length <= 3. The HTML written straight from '
-                     'the tree must equal the rendered HTML. 12k documents quick / 77k thorough.',
+                     'the tree must equal the rendered HTML (URLs compared as written). ~22k documents quick / ~640k thorough, plus boundary strata pinned by numbered spec examples and by every repaired defect.',
                 note='The generator is the trusted base (safety rules R1-R10, each citing a spec clause; tools/genmin.py minimises disagreements '
-                     'on the tree for triage). Nine defect shapes found this way are known findings with pinned witnesses and are switched off in '
-                     'the generator so that a NEW disagreement is always reported.'),
+                     'on the tree for triage). Defect shapes found this way that are not repaired (six at the last count, see known_findings.json) are known findings with pinned witnesses and are switched off in '
+                     'the generator so that a NEW disagreement is always reported; repaired ones are switched on and become boundary strata.'),
     'C07': dict(category='exploration', design_ref='DESIGN.md section 5, C07',
                 technique='reference-model monitor: first-wins case-folding resolver decides the expected HTML and definition table of generated documents',
                 text='Definitions (1-6, with case / whitespace / Unicode-folding label families, escaped titles, angle destinations) are inserted at '
